@@ -97,8 +97,35 @@ fn emit(run: &mut Runner, fam: &'static str, kind: String, bytes: Vec<u8>) {
     run.case(base, || decode_by_fam(fam, &bytes));
 }
 
+
+/// Systematic near-valid sweep: every single-bit flip, and every byte set to 0x00 / 0xFF, within the
+/// first `head` and the last `tail` bytes of a valid base packet.
+fn sweep_bits(run: &mut Runner, fam: &'static str, base: &[u8], head: usize, tail: usize) {
+    let n = base.len();
+    let positions: Vec<usize> = (0..head.min(n)).chain(n.saturating_sub(tail).max(head.min(n))..n).collect();
+    for &p in &positions {
+        for k in 0..8 {
+            let mut b = base.to_vec();
+            b[p] ^= 1 << k;
+            emit(run, fam, format!("sweepbit{p}.{k}"), b);
+        }
+        for v in [0u8, 0xFF] {
+            if base[p] != v {
+                let mut b = base.to_vec();
+                b[p] = v;
+                emit(run, fam, format!("sweepbyte{p}"), b);
+            }
+        }
+    }
+}
+
 pub fn gen_trg(run: &mut Runner, seed: u64, n: u64) {
     let mut rng = rng_from(seed, 6);
+    for _ in 0..2 {
+        let base = TrgFields::random(&mut rng).pack();
+        emit(run, "trg", "sweepbase".into(), base.clone());
+        sweep_bits(run, "trg", &base, 80, 0);
+    }
     // every length 0..=200 once with random content, and once as prefix/extension of a valid packet
     for len in 0..=200usize {
         let b: Vec<u8> = (0..len).map(|_| rng.gen()).collect();
@@ -172,6 +199,20 @@ fn rand_wave<R: Rng>(rng: &mut R, n: usize) -> Vec<i16> {
 
 pub fn gen_adc(run: &mut Runner, seed: u64, n: u64) {
     let mut rng = rng_from(seed, 2);
+    for k in 0..3 {
+        let mac = A16_MACS[rng.gen_range(0..8)].1;
+        let mut f = AdcFields::plain(mac, 128 + rng.gen_range(0..32), rand_wave(&mut rng, 64 + 3 * k));
+        if k == 1 {
+            // suppressed packet with slack: n = 67 < req - 2
+            f.supp = true;
+            f.keep_bit = true;
+            f.keep_last = 34;
+            f.req = 100;
+        }
+        let base = f.pack();
+        emit(run, "adc", "sweepbase".into(), base.clone());
+        sweep_bits(run, "adc", &base, 36, 4);
+    }
     // all short lengths with random content and as truncations of a valid packet
     for len in 0..=80usize {
         let b: Vec<u8> = (0..len).map(|_| rng.gen()).collect();
@@ -557,6 +598,12 @@ pub fn rand_pwb<R: Rng>(rng: &mut R, macs: &[[u8; 6]], nch: usize, req: u16) -> 
 pub fn gen_pwb(run: &mut Runner, seed: u64, n: u64, thorough: bool) {
     let mut rng = rng_from(seed, 5);
     let macs = pwb_macs();
+    for k in 0..2u16 {
+        let base = rand_pwb(&mut rng, &macs, 2, 2 + k).pack();
+        emit(run, "pwb", "sweepbase".into(), base.clone());
+        let n = base.len();
+        sweep_bits(run, "pwb", &base, n, 0);
+    }
     // every value of the version / chip / compression / trigger bytes
     for pos in 0..4usize {
         for v in 0..=255u8 {
